@@ -179,9 +179,10 @@ PROPS = {
         functions=[AL + "Alignment.gamma_k_disorder", AL + "Alignment.gamma_k_disorder#not-combined", AL + "UnitaryAlignment.nb_units",
                    AL + "UnitaryAlignment.n_tuple", AL + "Alignment.__iter__", DS + "PositionalSporadicDissimilarity.d",
                    DS + "AbsoluteCategoricalDissimilarity.d"],
+        wiring_gamma="C12",
         oracles=[CT + "GammaResults.gamma_k"],
         bounded=[dict(oracle=CT + "GammaResults.gamma_k",
-                      what="GammaResults.gamma_cat / gamma_k (thread-pool jobs) are not under contract yet: best / soft alignments and full gamma "
+                      what="GammaResults.gamma_cat / gamma_k (thread-pool jobs): 8 data-flow (wiring) obligations; their run-time meaning: best / soft alignments and full gamma "
                            "computations (3 chance samples) on random grid continua, categories present and absent, every combined parameter set: "
                            "disorder against the definition, gamma-cat / gamma-k == 1 - observed/mean chance, <= 1, == 1 on identical annotators; "
                            "TypeError for a non-combined dissimilarity")],
@@ -198,9 +199,11 @@ PROPS = {
                                     "GammaResults.gamma", "_compute_best_alignment_job", "_compute_soft_alignment_job", "_compute_gamma_k_job",
                                     "Continuum.get_best_alignment", "Continuum.get_best_soft_alignment")]
                   + [AL + "Alignment.disorder"] + CONT_OBSERVERS + ALIGN_CTORS + [AL + "SoftAlignment.__init__"],
+        wiring_gamma="C05",
         oracles=[CT + "Continuum.compute_gamma"],
         bounded=[dict(oracle=CT + "Continuum.compute_gamma",
-                      what="Continuum.compute_gamma (thread pool, sample batches, precision loop) is not under contract yet: seeded computations on "
+                      what="Continuum.compute_gamma runs its jobs through a thread pool (no executor model): what it adds to the proved job / GammaResults "
+                           "contracts is decided as 12 data-flow (wiring) obligations; their run-time meaning on seeded computations on "
                            "random grid continua, n_samples in {1,3,5}, precision none / numeric / named, three samplers, ground-truth subsets, three "
                            "modes: number of chance alignments == max(n_samples, ceil((1.96 CV/p)^2)), every chance alignment is a valid alignment "
                            "of its own fresh valid sample over the ground-truth annotators, observed == brute-force optimum of the requested kind, "
